@@ -32,10 +32,14 @@ from formulaic import model_matrix
 from formulaic.errors import FactorEncodingError, DataMismatchWarning
 
 def frame(cols):
+    import pyarrow as pa
+    arrow = {{"arrow-string": pa.string(), "arrow-large-string": pa.large_string()}}
     out = {{}}
     for name, (values, dtype) in cols.items():
         if dtype == "category":
             out[name] = pd.Categorical(values)
+        elif dtype in arrow:
+            out[name] = pd.Series(values, dtype=pd.ArrowDtype(arrow[dtype]))
         else:
             out[name] = pd.Series(values, dtype=dtype)
     return pd.DataFrame(out)
@@ -74,13 +78,40 @@ else:
 
 
 def _frame(cols):
+    import pyarrow as pa
+
+    arrow = {"arrow-string": pa.string(), "arrow-large-string": pa.large_string()}
     out = {}
     for name, (values, dtype) in cols.items():
         if dtype == "category":
             out[name] = pd.Categorical(values)
+        elif dtype in arrow:
+            out[name] = pd.Series(values, dtype=pd.ArrowDtype(arrow[dtype]))
         else:
             out[name] = pd.Series(values, dtype=dtype)
     return pd.DataFrame(out)
+
+
+# every way pandas stores a text column (the dtype of the FOLLOW-UP frame's text columns is a grid dimension)
+TEXT_DTYPES = ["object", "str", "string[python]", "string[pyarrow]", "arrow-string", "arrow-large-string", "category"]
+
+
+def _with_followup_dtypes(cases, thorough):
+    """re-store the text columns of every follow-up frame: quick tier one dtype per case (rotating through TEXT_DTYPES),
+    thorough tier all of them.  Frames whose categorical holds integers are left alone."""
+    out = []
+    for i, c in enumerate(cases):
+        text_cols = [k for k, (vals, dt) in c["new"].items()
+                     if dt in ("object", "category") and vals and all(isinstance(v, str) for v in vals)]
+        if not text_cols:
+            out.append(c)
+            continue
+        for dt in (TEXT_DTYPES if thorough else [TEXT_DTYPES[i % len(TEXT_DTYPES)]]):
+            new = dict(c["new"])
+            for k in text_cols:
+                new[k] = (new[k][0], dt)
+            out.append({**c, "new": new, "fu_dtype": dt})
+    return out
 
 
 # formulas: 'a' is the factor whose levels / kind change; 'b' another categorical; 'x', 'w' numeric
@@ -313,6 +344,8 @@ def _judge_pair(res, c, key, spec, subset, sub_mode, expected, new, FactorEncodi
                          "spec": sub_mode, "recorded_columns": expected})
     zero_cols = _zero_cols(expected, formula, c["storage"], c["absent"]) if (c["dummy"] and scen.startswith("lost")) else []
     sub_tag = "" if subset is None else ":" + sub_mode
+    if c.get("fu_dtype") not in (None, "object", "category"):
+        sub_tag += ":followup-" + c["fu_dtype"]
 
     def wit(clause):
         return {"formula": formula, "output": output, "scenario": scen, "train": c["train"], "new": c["new"],
@@ -340,7 +373,7 @@ def _judge_pair(res, c, key, spec, subset, sub_mode, expected, new, FactorEncodi
         return
     kind = "lost" if scen.startswith("lost") else ("gained" if scen.startswith("gained") else "same")
     if raised is not None:
-        res.fail("C09.columns.unchanged", f"{kind}:raised-{type(raised).__name__}:{output}{sub_tag}", wit("C09.columns.unchanged"),
+        res.fail("C09.columns.unchanged", f"{kind}:raised-{type(raised).__name__}{sub_tag}", wit("C09.columns.unchanged"),
                  f"{scen} [{sub_mode}]: {type(raised).__name__}: {raised}"[:600])
         return
     dense = np.asarray(m2.todense() if hasattr(m2, "todense") else m2, dtype=float)
@@ -426,7 +459,9 @@ def run_bounded(ctx):
         rule="26 categorical-side formulas (the factor bare, wrapped in C(...), with explicitly nominated levels in three "
              "orders, under 5 contrasts) x {same, all 6 proper level sub-sets, 5 unseen-level mixes, 1-row and 3-row "
              "follow-ups} + kind changes (cat->num as float/int/other floats over 13 formulas; num->cat with 1..3 levels "
-             "over 8 formulas) x storage {object, category, category of ints} x output {pandas, numpy, sparse} x spec "
+             "over 8 formulas) x storage {object, category, category of ints} x output {pandas, numpy, sparse} x dtype of the "
+             "follow-up frame's text columns {object, str, string[python], string[pyarrow], ArrowDtype(string), "
+             "ArrowDtype(large_string), category} (quick: one per case in rotation; thorough: all) x spec "
              "{as recorded, ModelSpec.subset to interaction terms only / main effects only / reversed order / last term "
              "only, when different and still involving the changed factor}; distinct = "
              "(formula, output, scenario, storage, spec variant); a pair is non-trivial iff the training materialization succeeds",
@@ -434,7 +469,7 @@ def run_bounded(ctx):
         bound="levels {p,q,r}+{y,z}, 7-row training frame, formulas and scenarios as listed (fully crossed)",
     ) as b:
         rep = Reporter(ctx, b)
-        cases = _cases(rng, ctx.thorough)
+        cases = _with_followup_dtypes(_cases(rng, ctx.thorough), ctx.thorough)
         for c in cases:
             c["quick"] = not ctx.thorough
         stats = Counter()
@@ -456,7 +491,7 @@ def run_bounded(ctx):
         bound=f"{n_random} pairs",
     ) as b:
         rep = Reporter(ctx, b)
-        cases = _random_cases(rng, n_random)
+        cases = _with_followup_dtypes(_random_cases(rng, n_random), False)
         stats = Counter()
         merge(b, rep, pmap(_worker, chunked(cases, 32)), stats)
         rep.close()
